@@ -124,6 +124,9 @@ func (s c08Step) String() string {
 	if s.kind == "inject" {
 		return fmt.Sprintf("msg-alone(s%d#%d)", s.sender, s.upto)
 	}
+	if s.kind == "inject-forged-twin" {
+		return fmt.Sprintf("forged-entry-claiming(s%d#%d)", s.sender, s.upto)
+	}
 	return fmt.Sprintf("msgs(s%d..%d)", s.sender, s.upto)
 }
 
@@ -227,6 +230,23 @@ func c08Run(ctx context.Context, w *vWorld, account *vReplica, mat *c08Material,
 		} else if st.kind == "meta" {
 			if err := vDeliver(ctx, gc.MetadataStore(), snd.meta[len(snd.meta)-1:]); err != nil {
 				return nil, err
+			}
+		} else if st.kind == "inject-forged-twin" {
+			// an entry any member can write: headers naming the sender's device and the counter of its message #upto, boxed
+			// under the group secret, with a payload that will never open
+			op, err := operation.ParseOperation(snd.msgs[st.upto-1].entry)
+			if err != nil {
+				return nil, err
+			}
+			forged, err := c01sRebox(mat.g, op.GetValue(), func(env *protocoltypes.MessageEnvelope, h *protocoltypes.MessageHeaders) {
+				h.Sig = make([]byte, 64)
+				env.Message = []byte("verif: a payload that opens under no key, forty bytes or more of it")
+			})
+			if err != nil {
+				return nil, err
+			}
+			if _, err := gc.MessageStore().AddOperation(ctx, operation.NewOperation(nil, "ADD", forged), nil); err != nil {
+				return nil, fmt.Errorf("inject forged: %w", err)
 			}
 		} else if st.kind == "inject" {
 			// ONE message reaches the receiver's log without the sender's earlier ones (replication hands over the newest
@@ -361,11 +381,14 @@ func c08Judge(rep *verifkit.Report, mat *c08Material, steps []c08Step, plan stri
 	announced := map[int]bool{}
 	arrivedUpto := map[int]int{}
 	arrivedAlone := map[[2]int]bool{}
+	forgedFor := map[int]int{} // entries that never open, written by somebody else under the sender's device key
 	for _, s := range steps {
 		if s.kind == "meta" || s.kind == "register" {
 			announced[s.sender] = true
 		} else if s.kind == "inject" {
 			arrivedAlone[[2]int{s.sender, s.upto - 1}] = true
+		} else if s.kind == "inject-forged-twin" {
+			forgedFor[s.sender]++
 		} else if s.upto > arrivedUpto[s.sender] {
 			arrivedUpto[s.sender] = s.upto
 		}
@@ -383,7 +406,7 @@ func c08Judge(rep *verifkit.Report, mat *c08Material, steps []c08Step, plan stri
 		return
 	}
 	for si, snd := range mat.senders {
-		wantParked := 0
+		wantParked := forgedFor[si]
 		for i, m := range snd.msgs {
 			if i >= arrivedUpto[si] && !arrivedAlone[[2]int{si, i}] {
 				continue // not delivered to the receiver
@@ -497,6 +520,15 @@ func TestVerifC08(t *testing.T) {
 		{"burst-130-unopenable-then-3", 1, 130, 3, func(m *c08Material) []c08Step {
 			return []c08Step{{"msgs", 0, all(0, m)}, {"settle", 0, 0}, {"meta", 0, 0}}
 		}, false, 0, false},
+		// another member has written an entry that claims the sender's device and the counter of its 2nd message (headers
+		// are boxed under the group secret only); it never opens and is parked first. The genuine messages, parked after
+		// it, must all come out when the key arrives - before and after the announcement
+		{"forged-twin-parked-first", 1, 0, 3, func(m *c08Material) []c08Step {
+			return []c08Step{{"inject-forged-twin", 0, 2}, {"settle", 0, 0}, {"msgs", 0, all(0, m)}, {"settle", 0, 0}, {"meta", 0, 0}}
+		}, false, 0, false},
+		{"forged-twin-after-announce-beyond-window", 1, 0, 6, func(m *c08Material) []c08Step {
+			return []c08Step{{"meta", 0, 0}, {"settle", 0, 0}, {"inject-forged-twin", 0, 5}, {"settle", 0, 0}, {"msgs", 0, all(0, m)}}
+		}, false, 3, false},
 		// the key is known, the receiver's window is 3 wide, and message 7 arrives ALONE first; messages 1..6 then arrive one
 		// at a time, the pipeline settling in between: 7 fails every time it is tried again until the window reaches it,
 		// and must come out then
